@@ -16,6 +16,13 @@ class ConcFamily(Family):
                "schedule exploration is validation of the tie between model and code, not the proof"]
     assumptions = ["scheduling points: before every lock acquisition, after every release, at every event write"]
 
+    def race_select(self, cases, tier):
+        """race-detector pass: the free-running programs as they are, the scheduled ones with a small schedule budget"""
+        n = 6 if tier == "quick" else 40
+        held = [c for c in cases if c.get("hold")][:n]
+        rest = [dict(c, max=min(c["max"], 60 if tier == "quick" else 400)) for c in cases if c.get("threads") and not c.get("hold")][:n]
+        return held + rest
+
     def __init__(self, prop, system):
         self.prop = prop
         self.system = system
